@@ -103,8 +103,12 @@ class Outcome:
 def finish(out: Outcome, *, level: str = "model_checking") -> int:
     """Adjudicate divergences against known findings, write replays + evidence, print verdicts."""
     known = load_known(out.prop)
+    # extension modules (ids X..): specification coverage beyond the 20 listed properties.  They are not claimed in
+    # MANIFEST.json; their evidence goes to evidence_ext/ and a divergence is printed as EXT-VIOLATION.
+    is_ext = out.prop.startswith("X")
+    evid_dir = (_OUT / "evidence_ext") if is_ext else EVID
     REPLAYS.mkdir(exist_ok=True)
-    EVID.mkdir(exist_ok=True)
+    evid_dir.mkdir(exist_ok=True)
     for old in REPLAYS.glob(f"{out.prop}_{out.tier}_*.json"):
         old.unlink()
     unknown: List[Divergence] = []
@@ -119,7 +123,7 @@ def finish(out: Outcome, *, level: str = "model_checking") -> int:
             unknown.append(d)
     for kid, n in sorted(known_hits.items()):
         e = known_entries[kid]
-        print(f"KNOWN-FINDING: property={out.prop} {kid} {e.get('what', '')} [{n} case(s) this run]")
+        print(f"KNOWN-FINDING: {'module' if is_ext else 'property'}={out.prop} {kid} {e.get('what', '')} [{n} case(s) this run]")
     stale = [e["id"] for e in known if e["id"] not in known_hits]
     # group unknown divergences by (site, why) so that the output stays readable
     groups: Dict[str, List[Divergence]] = {}
@@ -134,7 +138,7 @@ def finish(out: Outcome, *, level: str = "model_checking") -> int:
                                     "tags": d.tags, "detail": d.detail, "source": d.source,
                                     "count_in_group": len(ds), "stimulus": d.stimulus},
                                    indent=1))
-        vio_lines.append(f"VIOLATION property={out.prop} replay={path}  "
+        vio_lines.append(f"{'EXT-VIOLATION module' if is_ext else 'VIOLATION property'}={out.prop} replay={path}  "
                          f"# {d.site}: {d.why} ({len(ds)} case(s)) {d.detail[:160]}")
     cov = {
         "states": max(out.states, 0),
@@ -161,7 +165,7 @@ def finish(out: Outcome, *, level: str = "model_checking") -> int:
         "wall_s": round(time.time() - out.t0, 2),
         "violations": len(unknown),
     }
-    (EVID / f"{out.prop}.json").write_text(json.dumps(ev, indent=1))
+    (evid_dir / f"{out.prop}.json").write_text(json.dumps(ev, indent=1))
     for ln in vio_lines:
         print(ln)
     if out.machinery_errors:
@@ -299,7 +303,7 @@ def replay_file(path: str, prop: str, mod_name: str, trace_module: str,
     tv = tla.validate_traces(trace_module, [tr], constants=trace_constants)
     if tv.rejected:
         r = tv.rejected[0]
-        print(f"VIOLATION property={prop} replay={path}  # event {r['event']}: {r['why']}")
+        print(f"{'EXT-VIOLATION module' if prop.startswith('X') else 'VIOLATION property'}={prop} replay={path}  # event {r['event']}: {r['why']}")
         return 1
     print(f"{prop}: replay {path} accepted by the specification ({len(tr['ev'])} event(s))")
     return 0
